@@ -1,5 +1,7 @@
 #!/venv/bin/python
-"""check.py <Cxx> [--tier quick|thorough] [--replay file]"""
+"""check.py <Cxx> [--tier quick|thorough] [--replay file]
+check.py <Cxx> --cold-case -     (used by core.cold_start_sample: one op line on stdin is run as the first and only
+                                  implementation operation of this interpreter; the canonical result is printed)"""
 import importlib
 import os
 import sys
@@ -21,6 +23,10 @@ def main():
     except core.InfraError as e:
         print(f"INFRA-ERROR property={pid}: {e}")
         return 2
+    if "--cold-case" in sys.argv[2:]:
+        # nothing of the package has been called yet (the property module imported it); the op comes first, which tree the
+        # package was imported from is looked at afterwards
+        return core.cold_case_child(mod.PROP, sys.stdin.read())
     try:
         import spacepackets
         if not os.path.abspath(spacepackets.__file__).startswith(os.path.abspath(core.REPO)):
